@@ -175,9 +175,22 @@ Qed.
 Lemma assign_heap s abc : heap (assign s abc) = heap s.
 Proof. destruct abc as [[a b] c]. reflexivity. Qed.
 
-Lemma step_good s x : hinv (heap s) -> good s (fst (step s x)).
+Definition is_prune (x : op) : bool := match x with Prune _ => true | _ => false end.
+
+Lemma dmemN_filter n P (d : dictT) : dmemN n (filter P d) = true -> dmemN n d = true.
 Proof.
-  intros Hi. destruct x as [c nk pre orc|h nk pre orc|f n orc|nk pre orc|h|f|c|]; cbn [step].
+  unfold dmemN. rewrite !existsb_exists. intros (p & Hp & E). apply filter_In in Hp. exists p. tauto.
+Qed.
+Lemma dremove_nodupN nm i d : nodupN d -> nodupN (dremove nm i d).
+Proof.
+  unfold dremove. induction d as [|p d IH]; cbn [filter nodupN]; [auto|]. intros [H1 H2].
+  destruct (negb _); [|apply IH; exact H2]. cbn [nodupN]. split; [|apply IH; exact H2].
+  destruct (dmemN (fst p) (filter _ d)) eqn:E; [|reflexivity]. apply dmemN_filter in E. congruence.
+Qed.
+
+Lemma step_good s x : is_prune x = false -> hinv (heap s) -> good s (fst (step s x)).
+Proof.
+  intros NP Hi. destruct x as [c nk pre orc|h nk pre orc|f n orc|f|nk pre orc|h|f|c|]; cbn [step]; try discriminate NP.
   - pose proof (reg_good s c nk pre orc Hi) as G. destruct (reg s c nk pre orc) as [s1 r]. cbn [fst] in G.
     destruct r; try exact G. destruct c; try exact G.
     eapply good_trans; [exact G|]. intros H1. exact (add_framer_good s1 None H1).
@@ -196,7 +209,7 @@ Proof.
     pose proof (fun H => add_framer_good s2 (Some h) H) as G4.
     destruct (add_framer s2 (Some h)) as [s3 d]. cbn [fst] in *.
     eapply good_trans; [exact G3|]. intros H2. eapply good_trans; [exact (G4 H2)|]. intros H3.
-    exact (clone_frames_good _ (set_attr s3 CFrame {| cnt := Some 0; nms := Some d |}) H3).
+    exact (clone_frames_good _ (set_attr (note s3 _ _) CFrame {| cnt := Some 0; nms := Some d |}) H3).
   - pose proof (reg_good s CHouse nk pre orc Hi) as G. destruct (reg s CHouse nk pre orc) as [s1 r]. cbn [fst] in G.
     destruct r as [nm| | |]; try exact G. cbn [alloc].
     set (s2 := set_heap s1 (heap s1 ++ [[]])). set (s3 := set_heap s2 (heap s2 ++ [[]])).
@@ -216,10 +229,38 @@ Proof.
     eapply good_trans; [exact (clear_good _ CTasker H1)|]. intros H2. exact (clear_good _ CLog H2).
 Qed.
 
-Lemma run_good ops : forall s, hinv (heap s) -> good s (run s ops).
+(* every op keeps the names inside each registry pairwise distinct (prune only removes) *)
+Lemma step_hinv s x : hinv (heap s) -> hinv (heap (fst (step s x))).
 Proof.
-  induction ops as [|x ops IH]; cbn [run]; intros s Hi; [split; [exact Hi | apply ext_refl]|].
-  eapply good_trans; [exact (step_good s x Hi)|]. intros H1. apply IH. exact H1.
+  intros Hi. destruct (is_prune x) eqn:E; [|exact (proj1 (step_good s x E Hi))].
+  destruct x; try discriminate. cbn [step]. destruct (nth_error (finfo s) f) as [[nm i]|]; [|exact Hi].
+  cbn [fst set_heap heap]. apply Forall_upd; [exact Hi|]. apply dremove_nodupN.
+Qed.
+Lemma run_hinv ops : forall s, hinv (heap s) -> hinv (heap (run s ops)).
+Proof. induction ops as [|x ops IH]; cbn [run]; intros s Hi; [exact Hi|]. apply IH, step_hinv, Hi. Qed.
+
+Lemma run_good ops : forall s, forallb (fun x => negb (is_prune x)) ops = true -> hinv (heap s) -> good s (run s ops).
+Proof.
+  induction ops as [|x ops IH]; cbn [run forallb]; intros s B Hi; [split; [exact Hi | apply ext_refl]|].
+  apply andb_true_iff in B. destruct B as [B1 B2]. apply negb_true_iff in B1.
+  eapply good_trans; [exact (step_good s x B1 Hi)|]. intros H1. apply IH; assumption.
+Qed.
+
+(* Framer.prune removes at most the entry of the pruned instance itself: every other entry of every
+   registry -- in particular the same-named live clone of ANOTHER house whose namespace is current -- stays *)
+Lemma prune_only_owner s f i p : In p (nth i (heap s) []) ->
+  In p (nth i (heap (fst (step s (Prune f)))) []) \/ nth_error (finfo s) f = Some p.
+Proof.
+  intros Hin. cbn [step]. destruct (nth_error (finfo s) f) as [[nm id]|]; [|left; exact Hin].
+  cbn [fst set_heap heap]. destruct (Nat.eq_dec i (eff_nms s CFramer)) as [->|Hne].
+  - destruct (Nat.lt_ge_cases (eff_nms s CFramer) (length (heap s))) as [Hl|Hl].
+    + rewrite nth_upd_same by exact Hl. unfold dremove.
+      destruct (name_eqb nm (fst p) && Nat.eqb id (snd p)) eqn:E.
+      * right. apply andb_true_iff in E. destruct E as [E1 E2]. apply name_eqb_eq in E1. apply Nat.eqb_eq in E2.
+        destruct p; cbn in *; subst; reflexivity.
+      * left. apply filter_In. split; [exact Hin | rewrite E; reflexivity].
+    + rewrite upd_oob by exact Hl. left. exact Hin.
+  - rewrite nth_upd_other by exact Hne. left. exact Hin.
 Qed.
 
 Lemma init_hinv : hinv (heap init).
@@ -228,7 +269,7 @@ Proof. repeat constructor. Qed.
 (* no step ever reports an exhausted suffix loop *)
 Lemma step_no_fuel s x : snd (step s x) <> Some OutOfFuel.
 Proof.
-  destruct x as [c nk pre orc|h nk pre orc|f n orc|nk pre orc|h|f|c|]; cbn [step]; try discriminate.
+  destruct x as [c nk pre orc|h nk pre orc|f n orc|f|nk pre orc|h|f|c|]; cbn [step]; try discriminate.
   - pose proof (reg_spec s c nk pre orc) as [H _]. destruct (reg s c nk pre orc) as [s1 r]. cbn in H.
     destruct r; try (cbn; congruence). destruct c; cbn; discriminate.
   - pose proof (reg_spec s CFramer nk pre orc) as [H _]. destruct (reg s CFramer nk pre orc) as [s1 r]. cbn in H.
@@ -240,6 +281,7 @@ Proof.
     match goal with |- context [reg ?s1 CFramer ?a ?b ?c] =>
       pose proof (reg_spec s1 CFramer a b c) as [H _]; destruct (reg s1 CFramer a b c) as [s2 r] end.
     cbn in H. destruct r; try (cbn; congruence); try (destruct (add_framer s2 (Some h)); cbn; discriminate).
+  - destruct (nth_error (finfo s) f) as [[? ?]|]; discriminate.
   - pose proof (reg_spec s CHouse nk pre orc) as [H _]. destruct (reg s CHouse nk pre orc) as [s1 r]. cbn in H.
     destruct r as [nm| | |]; try (cbn; congruence). cbn [alloc].
     match goal with |- context [reg ?s4 CStore ?a ?b ?c] =>
@@ -301,7 +343,7 @@ Proof.
     destruct R2 as [-> H2]. destruct (add_framer s2 (Some h)) as [s3 d] eqn:A.
     split; [reflexivity|].
     assert (H3 : heap s3 = heap s2 ++ [[]]) by (unfold add_framer in A; cbn in A; inversion A; reflexivity).
-    set (s4 := set_attr s3 CFrame {| cnt := Some 0; nms := Some d |}).
+    set (s4 := set_attr (note s3 _ _) CFrame {| cnt := Some 0; nms := Some d |}).
     destruct (clone_frames_ext (map fst (nth fd (heap s4) [])) s4 b) as [extra X]. cbn [fst].
     exists extra. rewrite X. f_equal. change (heap s4) with (heap s3). rewrite H3, H2.
     rewrite app_nth1 by (rewrite upd_length; exact Hb).
